@@ -421,6 +421,10 @@ pub struct Ctx {
     state: Mutex<State>,
     known: Vec<KnownFinding>,
     start: Instant,
+    /// the fixed case in flight: (generation, check, case), observed by `fixed_monitor`
+    fixed_slot: Mutex<Option<(u64, String, Value)>>,
+    fixed_gen: std::sync::atomic::AtomicU64,
+    run_done: std::sync::atomic::AtomicBool,
 }
 
 pub fn profile_name() -> &'static str {
@@ -454,7 +458,57 @@ impl Ctx {
             state: Mutex::new(State::default()),
             known,
             start: Instant::now(),
+            fixed_slot: Mutex::new(None),
+            fixed_gen: std::sync::atomic::AtomicU64::new(0),
+            run_done: std::sync::atomic::AtomicBool::new(false),
         }
+    }
+
+    /// Watchdog of the fixed (non-generated) cases, run by the driver on its own thread next to the property's
+    /// `run`: a fixed case that stays in flight for more than the per-case limit of *observed* polls (same rule
+    /// and limits as `par_prop`) is reported as `<check>|nonterminating` with that case as replay; the evidence
+    /// is written and the process exits.  Returns when `fixed_monitor_stop` was called.
+    pub fn fixed_monitor(&self) {
+        const POLL_S: f64 = 0.25;
+        let limit: f64 = std::env::var("YQV_CASE_LIMIT").ok().and_then(|s| s.parse().ok()).unwrap_or(if self.quick() { 300.0 } else { 3600.0 });
+        let mut seen: (u64, u64) = (0, 0);
+        while !self.run_done.load(std::sync::atomic::Ordering::Relaxed) {
+            std::thread::park_timeout(std::time::Duration::from_millis((POLL_S * 1000.0) as u64));
+            let stuck = {
+                let g = self.fixed_slot.lock().unwrap();
+                match &*g {
+                    Some((gen, check, v)) => {
+                        if seen.0 == *gen {
+                            seen.1 += 1;
+                        } else {
+                            seen = (*gen, 1);
+                        }
+                        if seen.1 as f64 * POLL_S > limit {
+                            Some((check.clone(), v.clone()))
+                        } else {
+                            None
+                        }
+                    }
+                    None => {
+                        seen = (0, 0);
+                        None
+                    }
+                }
+            };
+            if let Some((check, v)) = stuck {
+                let fl = Fail::new(
+                    format!("{}|nonterminating", check),
+                    format!("a fixed case did not return within {} s of observed run time", limit),
+                );
+                self.violation(&check, &fl, v);
+                let code = self.finish();
+                std::process::exit(if code == 0 { 1 } else { code });
+            }
+        }
+    }
+
+    pub fn fixed_monitor_stop(&self) {
+        self.run_done.store(true, std::sync::atomic::Ordering::Relaxed);
     }
 
     pub fn quick(&self) -> bool {
@@ -913,10 +967,13 @@ impl Ctx {
         local: &mut Local,
         f: impl FnOnce(&C, &mut Local) -> Result<(), Fail>,
     ) -> bool {
+        let gen = self.fixed_gen.fetch_add(1, std::sync::atomic::Ordering::Relaxed) + 1;
+        *self.fixed_slot.lock().unwrap() = Some((gen, check.to_string(), serde_json::to_value(case).unwrap_or(Value::Null)));
         let r = match catch(|| f(case, local)) {
             Ok(r) => r,
             Err(p) => Err(unguarded_panic(&p)),
         };
+        *self.fixed_slot.lock().unwrap() = None;
         match r {
             Ok(()) => true,
             Err(fl) => {
